@@ -86,7 +86,7 @@ def abbaDeadlocks (op : BinOp) (a b : S) : Bool :=
   deadlockReachable 2 40 (Lts.unitInit (Lts.abbaProgs (rounds a) (rounds b)))
 
 /-- one thread-op token of `conc`; returns the new set and the number of `true` CheckedAdd answers -/
-def concTok (lookup : String → Option Prov) (w : Width) (fixed : Bool) (s : S) (tok : String) : Option (S × Nat) :=
+def concTok (lookup : String → Option Prov) (self : String) (w : Width) (fixed : Bool) (s : S) (tok : String) : Option (S × Nat) :=
   match tok.splitOn ":" with
   | ["add", vs] => (vs.splitOn ",").mapM String.toNat? |>.map (fun vs => (addMany s vs, 0))
   | ["cadd", v] => v.toNat?.map (fun v => (ins v s, if has s v then 0 else 1))
@@ -97,14 +97,14 @@ def concTok (lookup : String → Option Prov) (w : Width) (fixed : Bool) (s : S)
   | ["slice"] => some (s, 0)
   | [o, y] => match parseOp o, lookup y with
     | some op, some q =>
-      if q.width != w then none else
+      if q.width != w || y == self || (q.wrapped && q.locked) then none else
       (bitmapBinop fixed w op s (if q.wrapped then .wrapper q.locked q.set else .bitmap q.set)).map (fun s' => (s', 0))
     | _, _ => none
   | _ => none
 
-def concRun (lookup : String → Option Prov) (w : Width) (fixed : Bool) (s : S) (toks : List String) : Option (S × Nat) :=
+def concRun (lookup : String → Option Prov) (self : String) (w : Width) (fixed : Bool) (s : S) (toks : List String) : Option (S × Nat) :=
   toks.foldlM (fun (acc : S × Nat) tok =>
-    if tok == "/" then some acc else (concTok lookup w fixed acc.1 tok).map (fun r => (r.1, acc.2 + r.2))) (s, 0)
+    if tok == "/" then some acc else (concTok lookup self w fixed acc.1 tok).map (fun r => (r.1, acc.2 + r.2))) (s, 0)
 
 /-- outside the exactly characterised domain (run containers): iterate-while-remove over a receiver, or the native
 in-place Xor, when a chunk has ever been completely full -/
@@ -175,7 +175,7 @@ def step (st : St) (ts : List String) : St × String :=
   | "conc" :: x :: toks => match st.get x with
     | some p =>
       if p.wrapped && p.locked then (st, "deadlock") else
-      match concRun st.get p.width st.fixed p.set toks with
+      match concRun st.get x p.width st.fixed p.set toks with
       | some (s', n) => (st.put x (refresh { p with set := s' }), s!"ok {obs s'} cadd={n}")
       | none => (st, "bad-op")
     | none => (st, "bad-op")
